@@ -35,6 +35,10 @@ run "directory of a file that one patch creates and a later one deletes" C09
 run "counts the components of a name as they are written" C16
 run "has used up, or that is a directory" C16
 run "appended to .pc/applied-patches on a line of their own" C08
+run "does not take a directory of size 0 for an empty file" C17
+run "ends in a slash or in" C05 C10
+run "working directory itself is not removed" C19
+run "does not follow a symbolic link below .pc" C19
 # two repairs that touch the same lines: undone together (newest first)
 c1=$(h "writes backups, cleans directories and writes rejects in the order"); c2=$(h "files that only rolled-back patches had loaded are not written")
 tools/revert_eval.sh $c1,$c2 C05 C06 2>&1 | grep -v conda | cut -c1-220 >> $out
